@@ -24,6 +24,7 @@ import (
 	"github.com/libp2p/go-libp2p/x/verifhook"
 	ma "github.com/multiformats/go-multiaddr"
 
+	"verif/harness/rig/memnet"
 	"verif/harness/rig/run"
 	"verif/harness/rig/scripttpt"
 	"verif/harness/rig/swarmrig"
@@ -107,11 +108,14 @@ type result struct {
 	Waiters        int // directConnNotifs at final quiescence
 	State          swarm.VerifSwarmState
 	Regs           int
+	PreRegs        int // events placed between a waiter's look at the conns and its registration
 	Stuck          string
 	bubble         run.BubbleResult
 }
 
 var regHooks sync.Map // remote peer id -> func()
+
+var preRegHooks sync.Map // remote peer id -> func(), at the point just before a waiter registers
 
 func init() {
 	verifhook.Set("swarm.waitForDirectConn.registered", func(_ string, arg any) {
@@ -121,9 +125,51 @@ func init() {
 			}
 		}
 	})
+	verifhook.Set("swarm.waitForDirectConn.beforeRegister", func(_ string, arg any) {
+		if p, ok := arg.(peer.ID); ok {
+			if f, ok := preRegHooks.Load(p); ok {
+				f.(func())()
+			}
+		}
+	})
+}
+
+// genWake: a peer with a limited connection only, nothing ever closes, and a direct connection arrives
+// at a chosen point of a waiting stream open: every waiter must be woken and get its stream.
+func genWake(r *run.R, i int) *scenario {
+	rng := r.Rand(121, uint64(i))
+	sc := &scenario{ID: fmt.Sprintf("wake/%d", i), Init: []string{"limited"}, TCPScript: "fail", RelScript: "fail"}
+	if rng.IntN(3) == 0 {
+		sc.Init = append(sc.Init, "limited")
+	}
+	n := 1 + rng.IntN(3)
+	for k := 0; k < n; k++ {
+		c := call{Kind: "newstream", At: []int{0, 0, 1, 5}[rng.IntN(4)], CancelAtMs: -1, NoDial: rng.IntN(2) == 0}
+		switch rng.IntN(3) {
+		case 0:
+			c.TimeoutMs = []int{100, 1000}[rng.IntN(2)]
+		case 1:
+			c.DialPeerTOMs = []int{100, 1000}[rng.IntN(2)]
+		}
+		sc.Calls = append(sc.Calls, c)
+	}
+	e := event{Kind: "direct-in"}
+	switch rng.IntN(4) {
+	case 0, 1:
+		e.Trig = "before-register"
+	case 2:
+		e.Trig, e.At = "registered", []int{0, 1, 9}[rng.IntN(3)]
+	case 3:
+		e.Trig, e.At = "time", []int{0, 1, 4, 6, 29}[rng.IntN(5)]
+	}
+	sc.Events = append(sc.Events, e)
+	return sc
 }
 
 func gen(r *run.R, i int) *scenario {
+	if i%8 == 3 {
+		return genWake(r, i)
+	}
 	rng := r.Rand(12, uint64(i))
 	sc := &scenario{ID: fmt.Sprintf("sc/%d", i)}
 	switch rng.IntN(6) {
@@ -170,7 +216,9 @@ func gen(r *run.R, i int) *scenario {
 	m := rng.IntN(5)
 	for k := 0; k < m; k++ {
 		e := event{Kind: []string{"direct-in", "direct-in", "limited-in", "close-direct", "close-limited", "close-all"}[rng.IntN(6)]}
-		if rng.IntN(2) == 0 {
+		if x := rng.IntN(10); x == 0 {
+			e.Trig = "before-register"
+		} else if x < 5 {
 			e.Trig, e.At = "registered", []int{0, 0, 1, 9}[rng.IntN(4)]
 		} else {
 			e.Trig, e.At = "time", []int{0, 1, 4, 6, 29, 31, 99, 101, 999, 1001}[rng.IntN(10)]
@@ -292,6 +340,35 @@ func runScenario(t *testing.T, r *run.R, sc *scenario, _ int) (res result) {
 			})
 		})
 		defer regHooks.Delete(remote)
+		// "before-register": the waiter has looked at the conns and decided to wait, and has not yet put
+		// itself on the list. The event runs on another goroutine while the waiter is held back for 2 ms of
+		// REAL time (the point lies inside the waiter list's critical section: the other goroutine's wake-up
+		// call queues behind it; a virtual sleep would wedge the bubble on that mutex).
+		preOnce := sync.Once{}
+		preRegHooks.Store(remote, func() {
+			fired := false
+			preOnce.Do(func() {
+				for _, e := range sc.Events {
+					if e.Trig != "before-register" {
+						continue
+					}
+					e := e
+					fired = true
+					wg.Add(1)
+					go func() {
+						defer wg.Done()
+						doEvent(e)
+					}()
+				}
+			})
+			if fired {
+				<-memnet.RealAfter(2 * time.Millisecond)
+				mu.Lock()
+				res.PreRegs++
+				mu.Unlock()
+			}
+		})
+		defer preRegHooks.Delete(remote)
 		for _, e := range sc.Events {
 			if e.Trig != "time" {
 				continue
@@ -369,6 +446,7 @@ func runScenario(t *testing.T, r *run.R, sc *scenario, _ int) (res result) {
 					cr.Err = err.Error()
 					cr.ErrLimited = errors.Is(err, network.ErrLimitedConn)
 					cr.ErrNoConn = errors.Is(err, network.ErrNoConn)
+					cr.DirectOpen, _ = count()
 				} else {
 					cr.ConnID, cr.Limited, cr.ConnClosed = conn.ID(), conn.Stat().Limited, conn.IsClosed()
 					cr.RightPeer = conn.RemotePeer() == remote
@@ -429,6 +507,18 @@ func check(sc *scenario, res *result) (out []finding, st map[string]int) {
 			allForce = false
 		}
 	}
+	onlyLimitedAtStart, nothingCloses := len(sc.Init) > 0, true
+	for _, k := range sc.Init {
+		if k != "limited" {
+			onlyLimitedAtStart = false
+		}
+	}
+	for _, e := range sc.Events {
+		if len(e.Kind) >= 5 && e.Kind[:5] == "close" {
+			nothingCloses = false
+		}
+	}
+	st["events_placed_before_registration"] = res.PreRegs
 	for _, cr := range res.Calls {
 		c := cr.Call
 		if !cr.Returned {
@@ -482,6 +572,21 @@ func check(sc *scenario, res *result) (out []finding, st map[string]int) {
 			if cr.ErrNoConn {
 				st["err_no_conn"]++
 			}
+		}
+		// "otherwise the call waits for a direct connection and fails if none appears IN TIME": a limited conn
+		// is open from the start and nothing is ever closed, so the call neither dials nor loses a conn; once a
+		// direct connection has been announced (2 ms before the call's end at the latest) the call must not fail
+		if c.Kind == "newstream" && !c.AllowLimited && cr.Err != "" && onlyLimitedAtStart && nothingCloses {
+			for _, t := range res.DirectAdmitted {
+				if t <= cr.EndMs-2 {
+					out = append(out, finding{"waiter-failed-although-a-direct-conn-appeared-in-time", fmt.Sprintf("NewStream (called at %d ms) failed at %d ms with %q although a direct connection had been announced at %d ms and nothing was closed (%d direct conns open at return)",
+						cr.StartMs, cr.EndMs, cr.Err, t, cr.DirectOpen)})
+					break
+				}
+			}
+		}
+		if c.Kind == "newstream" && !c.AllowLimited && cr.Err == "" && onlyLimitedAtStart && nothingCloses && len(res.DirectAdmitted) > 0 {
+			st["waiters_served_by_a_late_direct_conn"]++
 		}
 		// "otherwise the call waits for a direct connection and fails if none appears in time": bounded by the
 		// smallest applicable timeout (+ scheduling of the same virtual instant)
@@ -574,6 +679,8 @@ func TestC12(t *testing.T) {
 	})
 	holepunchPart(t, r)
 	r.Require("waiter_registrations", 200)
+	r.Require("events_placed_before_registration", 50)
+	r.Require("waiters_served_by_a_late_direct_conn", 100)
 	r.Require("streams_on_direct", 200)
 	r.Require("streams_on_limited_allowed", 50)
 	r.Require("err_limited_conn", 1)
